@@ -28,7 +28,7 @@ KINDS = ['scalar', 'string', 'ipaddr', 'epath', 'status', 'typed_data', 'logix_r
          'unconnected_send', 'cpf', 'command', 'frame']
 REQUIRED = ['kind:' + k for k in KINDS] + ['monitor:bytes-equal', 'monitor:fields-recovered', 'monitor:regenerated', 'monitor:reproduce-after-edit', 'sweep:reply-status-values', 'monitor:ref-decoded',
                                            'epath:extended-port', 'epath:address-link', 'epath:32bit-element', 'epath:odd-symbolic', 'string:odd-length',
-                                           'status:extended', 'forward_open:large', 'unconnected_send:odd-length', 'multiple_reply:embedded-error-with-extended-status']
+                                           'status:extended', 'forward_open:large', 'unconnected_send:odd-length', 'multiple_reply:embedded-error-with-extended-status', 'frame:payload>=32767']
 TIMEOUT = {'quick': 300, 'thorough': 1800}
 SOFT = {'quick': 30, 'thorough': 420}
 
@@ -820,10 +820,52 @@ def strip_defaults(f):
     return f
 
 
+def large_frames(env, ctx, rng):
+    """The encapsulation length is a 16-bit unsigned field: frames whose payload is as long as it allows (and around the point
+    where a signed field would give up) are produced and parsed back.  Header level with an opaque payload; one shard each."""
+    p, rc = env.parser, env.rc
+    for k, n in enumerate([32767, 32768, 40000, 65535]):
+        if k % ctx.nshards != ctx.shard:
+            continue
+        payload = bytes((i * 7 + n) & 0xFF for i in range(n))
+        ctxb = bytes(rng.randrange(256) for _ in range(8))
+        sess = rng.randrange(1, 2**32)
+        ref = rc.enc_frame(0x6F, payload, session=sess, status=0, context=ctxb, options=0)
+        wit = {'frame_payload_bytes': n}
+        fd = env.dd({'command': 0x6F, 'session_handle': sess, 'status': 0, 'sender_context': {'input': ctxb}, 'options': 0})
+        fd.input = bytearray(payload)
+        ctx.count('frame:payload>=32767')
+        ctx.case(('large-frame', n), nontrivial=True)
+        try:
+            real = p.enip_encode(fd)
+        except Exception as exc:
+            ctx.violation('produce-raises:frame', 'enip_encode of a frame with a %d-byte payload raised %r' % (n, exc), wit)
+            continue
+        if bytes(real) != ref:
+            ctx.violation('bytes-differ:frame', 'frame with a %d-byte payload: header produced %r, reference %r' % (n, bytes(real[:24]), ref[:24]), wit)
+            continue
+        data = env.cpppo.dotdict()
+        source = env.cpppo.peekable(ref + b'\x65\x00')
+        try:
+            with p.enip_machine(context='enip', terminal=True) as m:
+                with contextlib.closing(m.run(source=source, data=data)) as eng:
+                    for _ in eng:
+                        pass
+                term = m.terminal
+        except Exception as exc:
+            ctx.violation('parse-raises:frame', 'parsing a frame with a %d-byte payload raised %r' % (n, exc), wit)
+            continue
+        got = bytes(data.enip.input.tobytes() if hasattr(data.enip.input, 'tobytes') else data.enip.input) if 'enip' in data and 'input' in data.enip else None
+        if not term or source.sent != 24 + n or got != payload or data.enip.length != n:
+            ctx.violation('fields-differ:frame', 'frame with a %d-byte payload parsed to length %r, %r payload bytes, consumed %d, terminal %r' % (
+                n, data.get('enip.length'), got and len(got), source.sent, term), wit)
+
+
 def run(ctx):
     env = Env(ctx)
     rng = ctx.rng
     n = 300 if ctx.tier == 'quick' else 10**7
+    large_frames(env, ctx, rng)
     # every general status value on every attribute-service reply, without and with extended status words (a status that one service
     # gives a special meaning to is one value in 255)
     sweep = [(k_, st, ext) for k_ in ('get_attributes_all', 'get_attribute_single', 'get_attribute_list', 'set_attribute_single')
